@@ -11,6 +11,7 @@ import CircuitModel.Conc.TransDyn
 import CircuitModel.Conc.TC
 import CircuitModel.Conc.Mgr
 import CircuitModel.Conc.Call
+import CircuitModel.Conc.Run
 import CircuitModel.Basic
 namespace CM
 open Conc
@@ -547,6 +548,88 @@ def conform (c : Config Shared Local) : List String → List String
     | _ => "bad-line" :: conform c rest
 
 end TrCall
+
+/-! the same traces against the WHOLE-CALL model Conc/Run: besides the admission reads, the invocation and the transitions,
+    the bulkhead's `Add(1)`, the limit read and the deferred `Add(-1)` are model steps, in the model's order -/
+namespace TrRun
+open Conc.Run
+
+def gaugeVar := "c.concurrentCommands"
+def limitVar := "c.threadSafeConfig.Execution.MaxConcurrentRequests"
+
+def tracked (body : String) : Bool :=
+  TrCall.tracked body || (body.splitOn " ").any fun t => t == gaugeVar || t == limitVar
+
+def expected (s : Shared) (l : Local) : Option String :=
+  let ldFO := s!"load {TrTrans.fo} -> {s.t.forceOpen}"
+  let ldFC := s!"load {TrTrans.fc} -> {s.t.forcedClosed}"
+  let ldFl := s!"load c.isOpen -> {s.t.isOpen}"
+  match l.pc with
+  | .aFO | .gFO | .pFO _ | .oFO _ => some ldFO
+  | .aFC | .pFC _ | .oFC _ | .oFC2 _ => some ldFC
+  | .aFlag | .pFlag _ | .oFlag _ => some ldFl
+  | .askAllow | .askPrevent | .deliverShort | .vetoed | .deliverReject | .classify | .deliver _ | .askShouldOpen _ => none
+  | .gaugeAdd => some s!"add {gaugeVar} 1 -> {s.gauge + 1}"
+  | .loadLimit _ => some s!"load {limitVar} -> {s.limit}"
+  | .invoke => some "run-invoked"
+  | .trans tl _ => TrTrans.expected s.t tl
+  | .gaugeDec _ => some s!"add {gaugeVar} -1 -> {s.gauge - 1}"
+  | .done _ => none
+
+def isSilent (s : Shared) (l : Local) : Bool :=
+  match l.pc with
+  | .done _ => false
+  | _ => (expected s l).isNone
+
+def advanceSilent (c : Config Shared Local) (i : Nat) : Nat → Config Shared Local
+  | 0 => c
+  | fuel + 1 =>
+    match c.locals[i]? with
+    | some l => if isSilent c.shared l then
+        (match step i c.shared l with
+         | some (s', l') => advanceSilent { shared := s', locals := c.locals.set i l' } i fuel
+         | none => c)
+      else c
+    | none => c
+
+def conform (c : Config Shared Local) : List String → List String
+  | [] => []
+  | line :: rest =>
+    match line.splitOn " " with
+    | ["R", iS, what] =>
+      (match iS.toNat? with
+       | none => "bad-line" :: conform c rest
+       | some i =>
+         let c := advanceSilent c i 8
+         let e := match resultOf c i with | some (.ran _) => "ran" | some .shed => "shed" | some .manual => "ran" | some .rejected => "rejected" | some .panicked => "panicked" | none => "nothing"
+         if e == what then "ok" :: conform c rest
+         else s!"MISMATCH thread {i}: in the whole-call model the call ends as [{e}], the code reports [{what}]" :: conform c rest)
+    | tidS :: toks =>
+      let body := " ".intercalate toks
+      if !tracked body then "skip" :: conform c rest else
+      (match tidS.toNat? with
+       | none => "bad-line" :: conform c rest
+       | some tid =>
+         let c := advanceSilent c tid 8
+         match c.locals[tid]? with
+         | none => s!"MISMATCH no such thread {tid}" :: conform c rest
+         | some l =>
+           match expected c.shared l with
+           | none => s!"MISMATCH whole-call model expects nothing more from thread {tid} but the code did: {body}" :: conform c rest
+           | some e =>
+             if e != body then s!"MISMATCH thread {tid}: whole-call model expects [{e}] code did [{body}]" :: conform c rest
+             else match step tid c.shared l with
+               | some (s', l') => "ok" :: conform { shared := s', locals := c.locals.set tid l' } rest
+               | none => s!"MISMATCH thread {tid}: [{body}] is not enabled in the whole-call model" :: conform c rest)
+    | _ => "bad-line" :: conform c rest
+
+end TrRun
+
+/-- the `shed` scenario judged against Conc/Run (limit -1: nobody is refused by the bulkhead) -/
+def suiteTrRun (kvs : List (String × String)) (lines : List (String × String)) : List String :=
+  let jobs : List Conc.Run.Job := ((kvGet kvs "ops").getD "").toList.map fun ch =>
+    if ch == 'O' then .open else if ch == 'F' then .call { failed := true, shouldOpen := true } else .call {}
+  (TrRun.conform (Conc.Run.init false false (kvBool kvs "init" false) (-1) jobs) (lines.map (·.1))).map fun r => r ++ "\t-"
 
 /-- header of the `shed` scenario: init=(0|1) ops=<O|F|S per thread>; the closer admits nobody and never closes,
     the opener says open after every failure -/
